@@ -311,16 +311,25 @@ def run_sched_case(case, twin, repo):
             except Exception:
                 pass
         if others:
-            o = pert.choice(others)
-            try:
-                s = o[0].suggest(o[1])
-                if s is not None and s.spawn_new_trial_id:
-                    tr = Trial(o[1], s.config, T0)
-                    o[0].on_trial_add(tr)
-                    o[0].on_trial_result(tr, {"loss": pert.random(), "epoch": 1, "elapsed_time": 1.0})
-                    o[1] += 1
-            except Exception:
-                pass
+            step_other(pert.choice(others))
+
+    def step_other(o):
+        """one new trial of an unrelated instance: started and reported epoch by epoch (all rung levels on the
+        way) while the instance says CONTINUE; o = [scheduler, next trial id, loss shift, max epochs]"""
+        try:
+            s = o[0].suggest(o[1])
+            if s is not None and s.spawn_new_trial_id:
+                tr = Trial(o[1], s.config, T0)
+                o[0].on_trial_add(tr)
+                o[1] += 1
+                shift = o[2] if len(o) > 2 else 0.0
+                for ep in range(1, (o[3] if len(o) > 3 else 1) + 1):
+                    d = o[0].on_trial_result(tr, {"loss": pert.random() + shift, "epoch": ep, "elapsed_time": float(ep)})
+                    if d != "CONTINUE":
+                        o[0].on_trial_remove(tr)
+                        break
+        except Exception:
+            pass
 
     try:
         with contextlib.redirect_stdout(sink):
@@ -344,15 +353,14 @@ def run_sched_case(case, twin, repo):
                             q = dict(pp, _built=params["_built"]) if pp.get("share_opts") else dict(pp)
                             sp = build_space(pp["alt_space"]) if pp.get("alt_space") else space
                             o = make_scheduler(pk, sp, q, pert.randrange(2 ** 31))
-                            others.append([o, 1000])
+                            # own trial ids from 0 (RUSH threshold candidates are the FIRST trials of a scheduler);
+                            # losses shifted by a constant, reports at all levels up to `report_epochs`
+                            rec_o = [o, 0, float(pp.get("loss_shift", 0.0)), int(pp.get("report_epochs", 1))]
+                            others.append(rec_o)
                             # lazily configured parts (bracket distribution, searcher) are set up by the first
                             # suggest: the unrelated instance is USED before the scheduler under test
-                            sg = o.suggest(1000)
-                            if sg is not None and sg.spawn_new_trial_id:
-                                tr0 = Trial(1000, sg.config, T0)
-                                o.on_trial_add(tr0)
-                                o.on_trial_result(tr0, {"loss": pert.random(), "epoch": 1, "elapsed_time": 1.0})
-                            others[-1][1] = 1001
+                            for _ in range(int(pp.get("initial_trials", 1))):
+                                step_other(rec_o)
                         except Exception:
                             pass
 
